@@ -13,6 +13,10 @@ TEXT = {
         level="Simulated time over all eight neuron classes: every step is a refinement check from the real pre-state against a float64 mirror of the documented equations (refractory decrement floored at 0, out-of-refractory mask, integrated voltage vs current threshold incl. adaptive thresholds / adaptation currents, reset voltage, voltage lock, refractory time after the step, spike attribute), plus whole-history invariants (no spike and no locked-voltage change before t + max(1, ceil(refrac/dt))); inputs include zero, constant, gaussian, huge, negative and adversarial near-threshold drives solved from the pre-state; clear() and train/eval switches are injected between steps.",
         ref="DESIGN.md 5.4", note="Threshold decisions within a scaled 1e-3 margin are counted as undecided, never judged; neuron.spike with refrac_t == 0 is a recorded known finding.",
         technique="deterministic simulation: simulated step clock, per-step refinement vs float64 mirror, history invariants, clear/mode-switch events"),
+    "C04": dict(
+        level="Seeded spike trains and injected currents over all four synapse classes with clear() faults and an in-place twin; after every step the reported current is compared with the float64 sum of the documented kernels over the recorded events and the stored spikes with the inputs; delayed queries (current_at / spike_at) with per-element selectors on the grid, between steps, at the limit and beyond the supported delay are compared with the recorded history, the documented interpolation rule and the configured out-of-bounds value (value at the limit when none).",
+        ref="DESIGN.md 5.6", note="Selectors within a float32 rounding margin of a grid point or tolerance boundary accept either reading; tolerance 2e-5 + 2e-4|b| for continuous values, exact for recorded on-grid values.",
+        technique="deterministic simulation: seeded spike histories with clear faults, closed-form history oracle, past reads vs recorded history, in-place twin replica"),
     "C07": dict(
         level="Seeded observation histories (boolean and real, with conditions) with interleaved clear(keepshape True/False) faults against every trace / fold reducer and the functional trace_* family; after each observation the latest value is compared with the float64 closed form over the event list since the last clear, an in-place twin must stay bit-identical, and time-indexed views (scalar, tensor, on and off the grid) and dumps are compared with the values the reducer itself reported at those steps.",
         ref="DESIGN.md 5.8", note="Continuous values use |a-b| <= 2e-5 + 2e-4|b|; views older than the first observation since a clear are not judged (nothing was recorded then).",
